@@ -21,6 +21,8 @@ import r29_energyscale
 import r30_record
 import r31_reject
 import r32_virial
+import r33_axispair
+import r34_weights
 import r06_validate
 import r07_cache
 import r08_toporder
@@ -148,6 +150,14 @@ R31_SCOPES = {
 
 def r31(ctx, prop):
     return r31_reject.run(ctx.F(), R31_SCOPES[prop])
+
+
+def r34(ctx, prop):
+    return r34_weights.run(ctx.F())
+
+
+def r33(ctx, prop):
+    return r33_axispair.run(ctx.F())
 
 
 def r32(ctx, prop):
@@ -330,10 +340,10 @@ PROPERTY_RULES = {
     "C10": [r10_selector, r8, r1_idealgas, r3, r19, r25, r29],
     "C14": [r14, r13, r10_identifier, r21, r27, r28],
     "C15": [r15],
-    "C20": [r10_transport, r21, r25, r24],
+    "C20": [r10_transport, r21, r25, r24, r34],
     "C01": [r1_all, r2, r7, r8, r4, r25, r24, r26, r28, r29],
     "C13": [r1_guard, r8, r21, r32],
-    "C17": [r1_functional, r8, r22, r25, r21, r26, r28],
+    "C17": [r1_functional, r8, r22, r25, r21, r26, r28, r33],
     "C11": [r9, r7],
     "C03": [r6, r17, r4, r5, r25, r24, r26, r31],
     "C04": [r4, r16, r25, r24, r26, r31],
